@@ -9,6 +9,7 @@ import (
 
 	"github.com/welllog/golib/algz"
 
+	"verif/harness/internal/g"
 	"verif/harness/internal/pb"
 	"verif/harness/internal/trieg"
 )
@@ -100,6 +101,36 @@ func runReplace(c trieg.Case, r *pb.Rec) error {
 	var tr algz.Trie
 	trieg.BuildStaged(c, tr.Insert, tr.BuildFailureLinks)
 	text := string(c.Text)
+	salt := len(text)*3 + len(c.Patterns)
+	if salt%2 == 0 {
+		text = g.Window(text, salt/2) // the same text as a window into a larger string
+		r.Class("text is a window into a larger string")
+	}
+	if err := checkText(&tr, c, text, r); err != nil {
+		return err
+	}
+	if len(text) >= 8 && salt%23 == 0 {
+		// the same trie scans texts of one length and different content, each allocated, scanned and dropped, with a
+		// garbage collection before the next one is allocated at (usually) the same address
+		r.Class("same-length texts in recycled memory, a collection between scans")
+		return g.Recycle(6, func(i int) error {
+			v := strings.Repeat(trieg.Rotate(text, i+1), 64/len(text)+1)
+			if i%2 == 1 {
+				return checkText(&tr, c, v, &pb.Rec{})
+			}
+			// the text of this round is the last thing the trie scans before it is dropped
+			occ, _ := trieg.Occurrences(c.Patterns, v)
+			if !parseReplace(tr.Replace(v, c.Repl), v, c.Repl, regions(occ, len(v))) {
+				return fmt.Errorf("Replace(text %d of a series of same-length texts in recycled memory: %q, %q) with patterns %q: not the covered regions replaced", i, v, c.Repl, c.Patterns)
+			}
+			return nil
+		})
+	}
+	return nil
+}
+
+func checkText(trp *algz.Trie, c trieg.Case, text string, r *pb.Rec) error {
+	tr := trp
 	occ, _ := trieg.Occurrences(c.Patterns, text)
 	rs := regions(occ, len(text))
 	// totality first (any text)
